@@ -79,9 +79,16 @@ func VerifH_C09_isolate() {
 		s.hold = true
 		s.send(vFrame(0x1, 0x5, 1, vReqBlock('1')))
 		get()
-		s.send(vFrame(0x1, 0x5, 3, vReqBlock('3', vInsertKV...)))
+		s.send(vFrame(0x1, 0x4, 3, append(vBlock(true, '3'), vInsertKV...)))
 		r := get()
 		vAssert(!r.goaway && r.rst[3] == RefusedStreamError, "C09.isolate.refused-stream")
+		// its body was already on the way
+		s.send(vFrame(0x0, 0x1, 3, []byte("late")))
+		r = get()
+		vNote(fmt.Sprintf("DATA on refused stream: goaway=%v/%d rst=%v", r.goaway, r.goawayCode, r.rst))
+		vAssert(!r.goaway, "C09.isolate.data-on-a-refused-stream-is-not-a-connection-error")
+		inc, _ := vWindowUpdates(all, 0, "C09.isolate.conn")
+		vAssert(int64(1<<22)-4+inc == int64(s.sc.currentWindow), "C09.isolate.refused-data-is-accounted-to-the-connection-window")
 		s.hold = false
 		s.gate <- struct{}{}
 		vSettle()
@@ -100,6 +107,8 @@ func VerifH_C09_isolate() {
 		r = get()
 		vNote(fmt.Sprintf("late DATA: goaway=%v/%d rst=%v", r.goaway, r.goawayCode, r.rst))
 		vAssert(!r.goaway, "C09.isolate.data-after-our-reset-is-ignored")
+		inc, _ := vWindowUpdates(all, 0, "C09.isolate.conn")
+		vAssert(int64(1<<22)-6+inc == int64(s.sc.currentWindow), "C09.isolate.discarded-data-is-accounted-to-the-connection-window")
 	case 3: // cancelled by the peer while its handler runs
 		s.hold = true
 		s.send(vFrame(0x1, 0x5, 3, vReqBlock('3', vInsertKV...)))
